@@ -39,7 +39,7 @@ Variable D : decoders.
 Lemma open_accept_fresh n msg asn phold caps w :
   Fresh n w -> w_state w = StOpenSent ->
   d_open D msg = OpOk asn phold caps -> asn = cf_remote_as (w_cfg w) ->
-  (N.min (w_hold w) phold = 0 \/ 3 <= N.min (w_hold w) phold) ->
+  hold_refused phold (N.min (w_hold w) phold) = false ->
   let r := open_received D n msg w in
   fst r = true /\ w_state (snd r) = StOpenConfirm /\ Fresh n (snd r) /\
   w_hold (snd r) = N.min (w_hold w) phold /\ w_cfg (snd r) = w_cfg w /\ w_now (snd r) = w_now w.
@@ -55,9 +55,7 @@ Proof.
   assert (Hq : (asn =? cf_remote_as cfg) = true) by (apply N.eqb_eq; exact Heq).
   cbn [w_cfg upd_conn set_w_conns]. rewrite Hq. cbn [negb snd fst].
   unfold negotiate_hold_time. cbv zeta.
-  assert (Hm : negb (N.min hold phold =? 0) && (N.min hold phold <? 3) = false).
-  { destruct Hok as [Hz|Hge]; [rewrite Hz; reflexivity|].
-    apply andb_false_iff. right. apply N.ltb_ge. exact Hge. }
+  assert (Hm : hold_refused phold (N.min hold phold) = false) by exact Hok.
   destruct (cap_has KFourBytesAs caps); cbn [w_hold set_w_hold upd_conn set_w_conns set_w_capr];
     rewrite Hm; sym_c; rewrite ?Hcl, ?Hdi in *; cbn in *; try discriminate;
     destruct (0 <? N.min hold phold); cbn;
@@ -99,7 +97,7 @@ Qed.
 Lemma rec_open n asn phold caps w :
   Fresh n w -> w_state w = StOpenSent ->
   d_open D open_body = OpOk asn phold caps -> asn = cf_remote_as (w_cfg w) ->
-  (N.min (w_hold w) phold = 0 \/ 3 <= N.min (w_hold w) phold) ->
+  hold_refused phold (N.min (w_hold w) phold) = false ->
   let w3 := step D w (EData n open_frame) in
   w_state w3 = StOpenConfirm /\ Fresh n w3 /\ w_hold w3 = N.min (w_hold w) phold /\ w_cfg w3 = w_cfg w /\
   w_now w3 = w_now w.
@@ -166,7 +164,7 @@ Theorem recovers : forall w d asn phold caps,
   w_state w = StIdle -> w_auto w = true ->
   t_dl (w_tih w) = Some d -> no_earlier d w = true -> t_dl (w_tdo w) = None ->
   d_open D open_body = OpOk asn phold caps -> asn = cf_remote_as (w_cfg w) ->
-  (N.min (cf_hold (w_cfg w)) phold = 0 \/ 3 <= N.min (cf_hold (w_cfg w)) phold) ->
+  hold_refused phold (N.min (cf_hold (w_cfg w)) phold) = false ->
   let n := length (w_conns w) in
   let es := [EFire TIdleHold; EConnOk n; EData n open_frame; EData n ka_frame] in
   let w' := run D w es in
@@ -181,7 +179,7 @@ Proof.
   destruct (rec_connok n w1 E1 A2 A6) as (B1 & B2 & B3 & B4 & B5 & (a & h & i & cs & B6 & B7)).
   set (w2 := step D w1 (EConnOk n)) in *.
   assert (Heq2 : asn = cf_remote_as (w_cfg w2)) by (rewrite B4, A5; exact Heq).
-  assert (Hok2 : N.min (w_hold w2) phold = 0 \/ 3 <= N.min (w_hold w2) phold) by (rewrite B3, A5; exact Hok).
+  assert (Hok2 : hold_refused phold (N.min (w_hold w2) phold) = false) by (rewrite B3, A5; exact Hok).
   destruct (rec_open n asn phold caps w2 B2 B1 Ho Heq2 Hok2) as (C1 & C2 & C3 & C4 & C5).
   set (w3 := step D w2 (EData n open_frame)) in *.
   destruct (rec_keepalive n w3 C2 C1) as (D1 & D2 & D3 & D4 & D5).
